@@ -88,6 +88,20 @@ example : WF witnessK11j ∧ ListSigOK witnessK11j ∧ eqSpec witnessK11j 5 6 = 
     eqImpl Cfg.fixed witnessK11j 5 6 = false ∧ eqImpl Cfg.fixed witnessK11j 7 8 = false ∧
     eqImpl Cfg.k11j witnessK11j 7 8 = true := by decide
 
+/-- mv = (vector 1), iv = #(1); (list mv) vs (list iv) -/
+def witnessM1 : Graph := [.leaf (.int 1), .mvec [0], .vec [0], .list [1] none, .list [2] none]
+
+/-- **Negation witness** (seeded defect m1): rejecting list elements of different discriminants breaks the
+    property, because a mutable and an immutable vector with equal elements are equal. -/
+theorem not_eq_structural_kind_reject : ¬ EqStructural Cfg.kindReject := by
+  intro h
+  have := h witnessM1 3 4 (by decide) (by decide) (by decide) (by decide) (by decide)
+  revert this
+  decide
+
+example : eqImpl Cfg.fixed witnessM1 1 2 = true ∧ eqImpl Cfg.fixed witnessM1 3 4 = true ∧
+    eqImpl Cfg.kindReject witnessM1 1 2 = true ∧ eqImpl Cfg.kindReject witnessM1 3 4 = false := by decide
+
 /-- the other half of D10: equal immutable vectors that occur twice are rejected -/
 theorem eq_old_wrong_on_vectors :
     eqImpl Cfg.legacy witnessVec 4 5 = false ∧ eqSpec witnessVec 4 5 = true := by decide
@@ -225,6 +239,13 @@ theorem map_ofList_last_wins (kvs : List (κ × ν)) (k : κ) :
     mTryGet (mOfList kvs) k = (kvs.reverse.find? fun e => e.1 == k).map Prod.snd :=
   Coll.tryGet_ofList kvs k
 
+/-- `(hash-union l r)`: a finite-map union in which, for a key of both, the value of the LEFT map wins -/
+theorem map_get_union (l r : M κ ν) (k : κ) :
+    mTryGet (mUnion l r) k = match mTryGet l k with | some v => some v | none => mTryGet r k :=
+  Coll.tryGet_union l r k
+
+example : mRef (mUnion [((1 : Int), (2 : Int))] [(1, 3), (4, 5)]) 1 = .ok 2 ∧ mRef (mUnion [((1 : Int), (2 : Int))] [(1, 3), (4, 5)]) 4 = .ok 5 := by decide
+
 example : mRef (mOfList [((1 : Int), (2 : Int)), (1, 3)]) 1 = .ok 3 ∧ mLength (mOfList [((1 : Int), (2 : Int)), (1, 3)]) = 1
     ∧ mRef (mOfList [((1 : Int), (2 : Int))]) 5 = .err := by decide
 
@@ -243,6 +264,14 @@ theorem set_length_insert (s : S κ) (k : κ) :
 theorem set_contains_ofList (ks : List κ) (k : κ) : sContains (sOfList ks) k = ks.contains k :=
   Coll.sContains_ofList ks k
 theorem set_nodup_ofList (ks : List κ) : (sOfList ks).Nodup := Coll.sNodup_ofList ks
+
+/-- `hashset-union`, `hashset-intersection`, `hashset-difference` (documented as the symmetric difference) -/
+theorem set_contains_union (s t : S κ) (k : κ) : sContains (sUnion s t) k = (sContains s k || sContains t k) :=
+  Coll.sContains_union s t k
+theorem set_contains_inter (s t : S κ) (k : κ) : sContains (sInter s t) k = (sContains s k && sContains t k) :=
+  Coll.sContains_inter s t k
+theorem set_contains_symdiff (s t : S κ) (k : κ) : sContains (sSymDiff s t) k = (sContains s k != sContains t k) :=
+  Coll.sContains_symDiff s t k
 
 example : sLength (sOfList [(1 : Int), 1, 2]) = 2 ∧ sContains (sOfList [(1 : Int), 1, 2]) 3 = false := by decide
 
